@@ -27,7 +27,7 @@ def reroot_variants(seed, n):
     return out
 
 
-def transfer_oracle(c, b):
+def transfer_oracle(c, b, variant="plain"):
     """materialize the table of case c (new table holding the exported frame) and transfer the column
     references of the origin to it: same visible table, and every reference of the origin pipeline that is
     valid on the origin's final table addresses the same data and the same name afterwards.
@@ -54,7 +54,15 @@ def transfer_oracle(c, b):
             return None
         fails = []
         try:
-            new = pdt.Table(ref, name="mat")
+            if variant == "renamed" and len(ref.columns) >= 2:
+                # the materialised table reaches the right names through a rename of its own: the first two
+                # columns arrive under each other's name and are swapped back
+                n0, n1 = ref.columns[0], ref.columns[1]
+                swapped = ref.rename({n0: "__tmp__"}).rename({n1: n0}).rename({"__tmp__": n1})
+                new = pdt.Table(swapped, name="mat") >> X.rename({n0: n1, n1: n0})
+                new = new >> X.select(*[new[n] for n in ref.columns])
+            else:
+                new = pdt.Table(ref, name="mat")
             m = pdt.transfer_col_references(new, tbl)
             got = m >> X.export(pdt.Polars())
         except BaseException as ex:  # noqa: BLE001
@@ -96,7 +104,7 @@ def run(ctx, res):
         from pathlib import Path
         rp = json.loads(Path(ctx.replay).read_text())
         if rp.get("failure", {}).get("kind") == "transfer":
-            fs = transfer_oracle(rp["case"], rp["backend"])
+            fs = transfer_oracle(rp["case"], rp["backend"], rp.get("failure", {}).get("variant", "plain"))
             if fs:
                 res.violations.append({"what": fs[0], "found_input": True,
                                        "payload": {"case": rp["case"], "backend": rp["backend"], "failure": {"kind": "transfer"}}})
@@ -110,13 +118,15 @@ def run(ctx, res):
         pid = c["pipe"]["id"]
         k = len(c["pipe"]["steps"])
         for b in ("polars", "sqlite"):
-            fs = transfer_oracle(c, b)
-            if fs is not None:
-                stats["transfer"] += 1
-                if fs and tbad < 2:
-                    tbad += 1
-                    res.violations.append({"what": f"{b}: {fs[0]}", "found_input": True,
-                                           "payload": {"case": c, "backend": b, "failure": {"kind": "transfer"}, "all": fs[:6]}})
+            for variant in ("plain", "renamed"):
+                fs = transfer_oracle(c, b, variant)
+                if fs is not None:
+                    stats["transfer"] += 1
+                    if fs and tbad < 2:
+                        tbad += 1
+                        res.violations.append({"what": f"{b}: {fs[0]} [{variant}]", "found_input": True,
+                                               "payload": {"case": c, "backend": b, "failure": {"kind": "transfer", "variant": variant},
+                                                           "all": fs[:6]}})
             base = pipecheck.observe(c, b)
             if base.exc or base.export_exc or base.names is None:
                 continue
